@@ -70,7 +70,8 @@ Flags(k) ==
 HeaderShapes  == [txRoot : Roots, logRoot : Roots, deputyRoot : {"nil", "set"}, extra : {"empty", "set"},
                   sign : {"nil", "signed"}, nums : Nums]
 BlockShapes   == [txs : N02, logs : N02, confirms : N02, deputies : N02]
-TxShapes      == [gp : {"nil", "from", "other"}, to : {"nil", "zero", "set"}, text : {"empty", "set"},
+\* text: ToName/Message empty, set (valid UTF-8, multi-byte and NUL included), or carrying bytes that are not valid UTF-8
+TxShapes      == [gp : {"nil", "from", "other"}, to : {"nil", "zero", "set"}, text : {"empty", "set", "badutf8"},
                   data : {"empty", "byte", "long", "box0", "box1", "box2"}, amount : Bigs, sigs : N02, gpsigs : 0..1]
 LogShapes     == UNION {[t : {t}, nv : Flags(NewKind(t)), ex : Flags(ExtraKind(t)), ver : Nums] : t \in LogTypes}
 AccountShapes == [balance : {"zero", "big"}, votes : {"nil", "zero", "big"}, profile : N02, records : N02,
@@ -114,6 +115,7 @@ Tok(kind, f) ==
     [] kind = "pextra"  -> "l"
     [] kind = "none"    -> "el"                                                \* a nil interface is written as the empty list
     [] kind = "list"    -> IF f = 0 THEN "el" ELSE "l"
+    [] kind \in {"jsontext", "addrtext"} -> "s"                                \* the textual forms (JSON string, Lemo address)
 
 \* what the decoder of the field rebuilds from the token (content of "s"/"l" tokens is carried by the flag itself)
 Back(kind, f) ==
@@ -130,6 +132,10 @@ Back(kind, f) ==
     [] kind = "profmap" -> IF t = "el" THEN "p0" ELSE f                        \* Profile.DecodeRLP into the map the caller made
     [] kind = "none"    -> "nil"
     [] kind = "list"    -> f
+    \* a Go string travels through JSON unchanged - unless the code lets encoding/json replace invalid UTF-8 by U+FFFD
+    [] kind = "jsontext" -> IF f = "badutf8" /\ "Dev_JsonManglesInvalidUtf8" \in Devs THEN "replaced" ELSE f
+    \* decoding the text form sets all 20 bytes - unless leading zero bytes are only "not written" over a used receiver
+    [] kind = "addrtext" -> IF f = "lead-dirty" /\ "Dev_AddressDecodeKeepsStaleBytes" \in Devs THEN "stale-high-bytes" ELSE f
 
 \* nil and empty byte strings are the same value (the code tests len() everywhere); everything else is itself
 Norm(kind, f) == IF kind \in {"blob", "code", "text"} /\ f = "nil" THEN "empty" ELSE f
@@ -140,7 +146,7 @@ Fields(typ, s) ==
                           <<"text", IF s.extra = "empty" THEN "empty" ELSE "long">>, <<"blob", IF s.sign = "nil" THEN "nil" ELSE "long">>,
                           <<"num", s.nums>>}
     [] typ = "tx"     -> {<<"optaddr", IF s.gp = "nil" THEN "nil" ELSE "set">>, <<"optaddr", s.to>>, <<"big", s.amount>>,
-                          <<"text", IF s.text = "empty" THEN "empty" ELSE "long">>,
+                          <<"text", IF s.text = "empty" THEN "empty" ELSE "long">>, <<"jsontext", s.text>>,
                           <<"blob", IF s.data \in {"empty", "byte"} THEN s.data ELSE "long">>,
                           <<"list", s.sigs>>, <<"list", s.gpsigs>>}
     [] typ = "log"    -> {<<NewKind(s.t), s.nv>>, <<ExtraKind(s.t), s.ex>>, <<"num", s.ver>>}
@@ -149,6 +155,7 @@ Fields(typ, s) ==
     [] typ = "deputy" -> {<<"blob", IF s.nodeID = "empty" THEN "empty" ELSE "long">>, <<"num", s.rank>>, <<"big", s.votes>>}
     [] typ = "asset"  -> {<<"profmap", IF s.profile = 0 THEN "p0" ELSE "p2">>, <<"big", s.supply>>}
     [] typ = "equity" -> {<<"big", s.equity>>}
+    [] typ = "address" -> {<<"addrtext", IF s.lead > 0 /\ s.recv = "dirty" THEN "lead-dirty" ELSE "plain">>}
     [] OTHER -> {}
 
 RoundTrip(typ, s) == \A fl \in Fields(typ, s) : Back(fl[1], fl[2]) = Norm(fl[1], fl[2])
